@@ -20,7 +20,16 @@ def string_perturbations(rnd, val_len, exhaustive_bits=True, cap=24):
     """transform suffixes applicable to a string argument of known length"""
     out = []
     nbits = 8 * val_len
-    bits = list(range(nbits)) if exhaustive_bits and val_len <= 40 else sorted(set(rnd.randrange(nbits) for _ in range(min(nbits, cap))))
+    if exhaustive_bits and val_len <= 40:
+        bits = list(range(nbits))
+    else:
+        # long strings: sampled positions plus the two ends and every 64-byte boundary region
+        bits = set(rnd.randrange(nbits) for _ in range(min(nbits, cap)))
+        bits |= {0, nbits - 1, nbits - 8}
+        for off in (63, 64, 65, 127, 128, 129, 255, 256, 257, 270, 300):
+            if off < val_len:
+                bits.add(8 * off + rnd.randrange(8))
+        bits = sorted(b for b in bits if 0 <= b < nbits)
     out += [("flip", "^flip:%d" % b) for b in bits]
     out += [("append00", "^app:00"), ("prepend00", "^pre:00"), ("append_rand", "^app:%02x" % rnd.randrange(1, 256))]
     if val_len:
@@ -41,8 +50,8 @@ def build(env, baselines_per_suite, suites, full_bits):
             mode = (n + b) % 4
             n += 1
             s = cw.session(kem, kdf, aead, sid="c%d" % len(cw.sessions))
-            il = rnd.choice([0, 1, 7, 20, 33])
-            pl, dl = rnd.choice([1, 16, 32, 33]), rnd.choice([1, 5, 32])
+            il = rnd.choice([0, 1, 7, 20, 33, 300, 1000, 4097])
+            pl, dl = rnd.choice([1, 16, 32, 33, 65, 100, 300, 2000]), rnd.choice([1, 5, 32, 70, 300, 1500])
             info = g.raw(il)
             psk = g.raw(pl) if mode in (1, 3) else None
             pskid = g.raw(dl) if mode in (1, 3) else None
